@@ -113,6 +113,8 @@ type Buf interface {
 	SetSample(i int, v Val)
 	BufferIndex(c, i int) int
 	Channel(c int) Chan
+	AllocsSlice(s, e, runs int) float64
+	AllocsChannel(ch, runs int) float64
 }
 
 // Chan is a signal.C[T].
@@ -141,6 +143,7 @@ type Pool interface {
 	Put(b Buf)
 	// Copy returns a copy of the allocator *value* (sharing whatever the value shares).
 	Copy() Pool
+	AllocsCycle(runs int) float64
 }
 
 type bufW[T signal.SignalTypes] struct {
@@ -206,20 +209,23 @@ func (w poolW[T]) Copy() Pool {
 }
 
 type typeOps struct {
-	alloc   func(a signal.Allocator) Buf
-	newSl   func(n int) Sl
-	nilSl   func() Sl
-	newPool func(a signal.Allocator) Pool
+	alloc      func(a signal.Allocator) Buf
+	newSl      func(n int) Sl
+	nilSl      func() Sl
+	newPool    func(a signal.Allocator) Pool
+	newStriped func(lens []int) Striped
 }
 
 type pairOps struct {
-	name         string // conversion function name
-	write        func(src Sl, dst Buf) int
-	read         func(src Buf, dst Sl) int
-	writeStriped func(src []Sl, outerNil bool, dst Buf) int
-	readStriped  func(src Buf, dst []Sl, outerNil bool) int
-	conv         func(src, dst Buf) int
-	block        func(n int) func(in, out []uint64)
+	name          string // conversion function name
+	write         func(src Sl, dst Buf) int
+	read          func(src Buf, dst Sl) int
+	writeStriped  func(src []Sl, outerNil bool, dst Buf) int
+	readStriped   func(src Buf, dst []Sl, outerNil bool) int
+	conv          func(src, dst Buf) int
+	writeStripedP func(src Striped, dst Buf) int
+	readStripedP  func(src Buf, dst Striped) int
+	block         func(n int) func(in, out []uint64)
 }
 
 var (
@@ -263,10 +269,11 @@ func regType[T signal.SignalTypes](name string, k Kind, bits int, named bool) in
 	t := len(Types)
 	Types = append(Types, Type{t, name, k, bits, named})
 	tops = append(tops, typeOps{
-		alloc:   func(a signal.Allocator) Buf { return bufW[T]{signal.Alloc[T](a), t, k} },
-		newSl:   func(n int) Sl { return slW[T]{make([]T, n), t, k} },
-		nilSl:   func() Sl { return slW[T]{nil, t, k} },
-		newPool: func(a signal.Allocator) Pool { p := signal.PoolAlloc[T](a); return poolW[T]{&p, t, k} },
+		alloc:      func(a signal.Allocator) Buf { return bufW[T]{signal.Alloc[T](a), t, k} },
+		newSl:      func(n int) Sl { return slW[T]{make([]T, n), t, k} },
+		nilSl:      func() Sl { return slW[T]{nil, t, k} },
+		newPool:    func(a signal.Allocator) Pool { p := signal.PoolAlloc[T](a); return poolW[T]{&p, t, k} },
+		newStriped: func(lens []int) Striped { return mkStriped[T](t, lens) },
 	})
 	return t
 }
@@ -292,6 +299,8 @@ func regIO[S, D signal.SignalTypes](s, d int) {
 	p.readStriped = func(src Buf, dst []Sl, outerNil bool) int {
 		return signal.ReadStriped(src.(bufW[S]).b, unSl[D](dst, outerNil))
 	}
+	p.writeStripedP = func(src Striped, dst Buf) int { return signal.WriteStriped(src.(stripedW[S]).s, dst.(bufW[D]).b) }
+	p.readStripedP = func(src Buf, dst Striped) int { return signal.ReadStriped(src.(bufW[S]).b, dst.(stripedW[D]).s) }
 }
 
 func regConv[S, D signal.SignalTypes](s, d int, name string, f func(*signal.Buffer[S], *signal.Buffer[D]) int) {
